@@ -36,3 +36,31 @@ def mk(target, fields_fn, dom_fn):
     contract(f"{target}.__post_init__", setup=setup, raises=[("ValueError", lambda c, q: z3.Not(c.dom)), ("TypeError", lambda c, q: z3.Not(c.dom))],
              ensures={"accepted_implies_domain": lambda c, q: c.dom})
 for t, (ff, df) in SPECS.items(): mk(t, ff, df)
+
+# ---- Mirjalili config: tuple-valued fields; lengths are per scenario (concrete), entries and the integer fields symbolic
+MJC = "mdpax.problems.perishable_inventory.mirjalili_platelet.MirjaliliPlateletPerishableConfig"
+def mk_mj(ln, ld, l0, l1):
+    def setup(I):
+        c = I.load_module("mdpax.problems.perishable_inventory.mirjalili_platelet").globals["MirjaliliPlateletPerishableConfig"]
+        f = dict(_target_="t", max_demand=I_("max_demand"), weekday_demand_negbin_n=tuple(R_(f"n{i}") for i in range(ln)), weekday_demand_negbin_delta=tuple(R_(f"d{i}") for i in range(ld)),
+                 max_useful_life=I_("m"), useful_life_at_arrival_distribution_c_0=tuple(R_(f"c0_{i}") for i in range(l0)), useful_life_at_arrival_distribution_c_1=tuple(R_(f"c1_{i}") for i in range(l1)),
+                 max_order_quantity=I_("Q"), variable_order_cost=R_("v"), fixed_order_cost=R_("k"), shortage_cost=R_("s"), wastage_cost=R_("w"), holding_cost=R_("h"))
+        dom = z3.And(f["max_demand"] > 0, z3.BoolVal(ln == 7), *[x > 0 for x in f["weekday_demand_negbin_n"]], z3.BoolVal(ld == 7), *[x > 0 for x in f["weekday_demand_negbin_delta"]],
+                     f["max_useful_life"] >= 1, f["max_useful_life"] - 1 == l0, f["max_useful_life"] - 1 == l1, f["max_order_quantity"] > 0)
+        return Ctx(self=Obj(c, f, label="cfg"), _args=[], dom=dom)
+    return setup
+contract(f"{MJC}.__post_init__", scenarios=[(f"n{ln}d{ld}c{l0}{l1}.", mk_mj(ln, ld, l0, l1)) for ln, ld, l0, l1 in [(7, 7, 2, 2), (6, 7, 2, 2), (7, 6, 1, 1), (7, 7, 2, 1), (7, 7, 0, 0), (7, 7, 1, 3)]],
+         raises=[("ValueError", lambda c, q: z3.Not(c.dom)), ("TypeError", lambda c, q: z3.Not(c.dom))], ensures={"accepted_implies_domain": lambda c, q: c.dom})
+
+# ---- verbosity mapping and Solver.set_verbosity
+def setup_verb(I):
+    v = z3.Int("verbose"); return Ctx(self=None, _args=[v], v=v)
+LEVELS = ["ERROR", "WARNING", "INFO", "DEBUG", "TRACE"]
+def post_verb(c, q):
+    r = c.result
+    if isinstance(r, str):      # on a path the key is concrete after path splitting
+        return z3.And(c.v >= 0, c.v <= 4, c.v == LEVELS.index(r)) if r in LEVELS else z3.BoolVal(False)
+    return z3.BoolVal(False)
+contract("mdpax.utils.logging.verbosity_to_loguru_level", setup=setup_verb,
+         raises=[("ValueError", lambda c, q: z3.Or(c.v < 0, c.v > 4))],
+         ensures={"levels_0_to_4_map_to_the_five_names": post_verb})
